@@ -203,7 +203,17 @@ def none_sentinel_sites(fn):
                 and isinstance(n.comparators[0], ast.Constant) and n.comparators[0].value is None:
             v = pv.resolve_alias(n.left)
             if any(v is lk for lk in lookups) or (isinstance(n.left, ast.Name) and any(d.value is lk for d in pv.rd.defs(n.left) for lk in lookups)):
-                out.append((n, [lk for lk in lookups if v is lk or isinstance(n.left, ast.Name)][0]))
+                lk = [lk for lk in lookups if v is lk or isinstance(n.left, ast.Name)][0]
+                # "create the container if it is missing or null": `if d.get(k) is None: d[k] = <new>` replaces a null by design (the explicit spelling is
+                # `k not in d or d[k] is None`); nothing is *read* as absent there
+                holder = getattr(n, "_parent", None)
+                while holder is not None and not isinstance(holder, (ast.If, ast.stmt)):
+                    holder = getattr(holder, "_parent", None)
+                if isinstance(holder, ast.If) and holder.test is n and isinstance(n.ops[0], ast.Is) and isinstance(lk.func, ast.Attribute) and lk.func.attr == "get" and len(lk.args) == 1 \
+                        and len(holder.body) == 1 and isinstance(holder.body[0], ast.Assign) and isinstance(holder.body[0].targets[0], ast.Subscript) \
+                        and norm(holder.body[0].targets[0].value) == norm(lk.func.value) and norm(holder.body[0].targets[0].slice) == norm(lk.args[0]):
+                    continue
+                out.append((n, lk))
     return out
 
 
